@@ -89,6 +89,7 @@ func run(c *vf.Ctx) {
 	c.Rule("keys include 17 boundary value classes (ECDSA points with X/Y one or two bytes short on every curve, short scalars, ed25519 public keys starting 00/0000, all-zero seed, 1039-bit RSA modulus, short RSA d) as signers and verifiers; 1: signers{rsa2048,rsa1024,p256,p384,p521,ed25519,dsa,classes} x 22 algorithm names; 2: every valid signature x every verifier key (plain + certificate) x every presented format x {same,other data}; " +
 		"3: per valid signature every blob byte (blob length depends on the signature value) x{^01,^80}, length -1/+1 front/back, empty, structured ECDSA/RSA/Ed25519/sk faults; 4: 2 sk types x 256 flag bytes x 3 counters direct, and x 10 server configurations through a real handshake; " +
 		"5: every ordered list (len 0..3) over allowed+foreign names, nested lists, x every requested algorithm; non-trivial = distinct (part, key, algorithm/fault/flags/config) whose reference verdict and package result were compared; " +
+		"H (hardening): EVERY Verify call of parts 2-4 gets private copies of data and signature and must leave data, signature (format, blob, rest) and the key (Marshal) unchanged; per signer x allowed algorithm: data untouched, earlier signatures unchanged by later Sign calls, signer usable after the caller overwrote them; every ordered triple X,Y,X over {allowed algorithms, '', foo, certificate name, foreign algorithm} on ONE signer object for 7 plain signers and RSA signers restricted to [256,512], [512], [512,ssh-rsa]; messages of 2^k+{-1,0,1} bytes for k in {6,7,10,16,20,22} x 9 keys (package-signed -> reference, reference/security-key-signed -> package, far-end byte flips and truncation rejected); per valid signature one fresh key object decides valid, 4-7 kinds of invalid, valid again; in part 4b every 16th flag value also installs VerifiedPublicKeyCallback and the key objects handed to both callbacks must still refuse a signature without user presence after the handshake; " +
 		"oracle = reference verifier written from RFC 4253/5656/8332/8709 and PROTOCOL.u2f over the standard library")
 	c.Assume("crypto/rsa, crypto/ecdsa, crypto/ed25519, crypto/dsa, crypto/sha* of the standard library are correct")
 	c.Assume("encodings on which the RFCs leave verifiers a choice (short RSA blobs under rsa-sha2-*, non-minimal mpints) are not decided; ECDSA (r, n-s) is a valid signature mathematically and counted as such")
@@ -101,6 +102,7 @@ func run(c *vf.Ctx) {
 	part3(c, keys, sigs)
 	part4(c, keys, hostSigner, caPriv)
 	part5(c, keys, caPriv)
+	partH(c, keys, sigs)
 }
 
 // ---- keys -------------------------------------------------------------------------
@@ -349,12 +351,18 @@ func refSigs(c *vf.Ctx, keys []*keyEnt) []sigEnt {
 // compare runs PublicKey.Verify and the reference on one case.
 func compare(c *vf.Ctx, part string, v *keyEnt, data []byte, s sr.Sig, det map[string]any) (sr.Verdict, bool) {
 	var err error
-	p, pv, _ := vf.Protect(func() { err = v.pub.Verify(data, toSSH(s)) })
+	var changed string
+	// hardening: Verify gets private copies of data and signature; whatever it changed
+	// (data, signature fields, the key itself) is a violation
+	p, pv, _ := vf.Protect(func() { err, changed = verifyOwned(v, data, s) })
 	c.Eval(1)
 	if p {
 		det["panic"] = fmt.Sprint(pv)
 		c.Violation(part+": Verify panics", det)
 		return sr.Invalid, false
+	}
+	if changed != "" {
+		c.Violation("Verify modifies "+changed+" it was given", det)
 	}
 	want, why := sr.Verify(v.ref, data, s, true)
 	switch {
@@ -640,11 +648,14 @@ type srvCfg struct {
 	waived bool
 }
 
-func handshake(hostSigner ssh.Signer, cb func(ssh.ConnMetadata, ssh.PublicKey) (*ssh.Permissions, error), signer ssh.Signer) (srvOK bool, srvErr, cliErr error, timedOut bool) {
+func handshake(hostSigner ssh.Signer, cb func(ssh.ConnMetadata, ssh.PublicKey) (*ssh.Permissions, error), vcb func(ssh.ConnMetadata, ssh.PublicKey, *ssh.Permissions, string) (*ssh.Permissions, error), signer ssh.Signer) (srvOK bool, srvErr, cliErr error, timedOut bool) {
 	a, b := bufPipe()
 	defer a.Close()
 	defer b.Close()
 	scfg := &ssh.ServerConfig{PublicKeyCallback: cb, MaxAuthTries: 2}
+	if vcb != nil {
+		scfg.VerifiedPublicKeyCallback = vcb
+	}
 	scfg.AddHostKey(hostSigner)
 	ccfg := &ssh.ClientConfig{User: "user", Auth: []ssh.AuthMethod{ssh.PublicKeys(signer)}, HostKeyCallback: ssh.InsecureIgnoreHostKey(), Timeout: 0}
 	done := make(chan struct{})
@@ -789,8 +800,20 @@ func part4(c *vf.Ctx, keys []*keyEnt, hostSigner ssh.Signer, caPriv ed25519.Priv
 			IsUserAuthority:          func(a ssh.PublicKey) bool { return bytes.Equal(a.Marshal(), caBlob) },
 			SupportedCriticalOptions: []string{ntr},
 		}
+		// hardening: the key objects the server hands to its callbacks (PublicKeyCallback sees the
+		// key of the query, VerifiedPublicKeyCallback the key of the signed request, i.e. the
+		// object the server verified with). Every 16th flag value runs with the second callback.
+		var seenByCallback []ssh.PublicKey
+		var vcb func(ssh.ConnMetadata, ssh.PublicKey, *ssh.Permissions, string) (*ssh.Permissions, error)
+		if j.flags%16 == 0 {
+			vcb = func(_ ssh.ConnMetadata, key ssh.PublicKey, p *ssh.Permissions, _ string) (*ssh.Permissions, error) {
+				seenByCallback = append(seenByCallback, key)
+				return p, nil
+			}
+		}
 		cb := func(conn ssh.ConnMetadata, key ssh.PublicKey) (*ssh.Permissions, error) {
 			var base *ssh.Permissions
+			seenByCallback = append(seenByCallback, key)
 			if _, ok := key.(*ssh.Certificate); ok {
 				p, err := checker.Authenticate(conn, key)
 				if err != nil {
@@ -807,7 +830,7 @@ func part4(c *vf.Ctx, keys []*keyEnt, hostSigner ssh.Signer, caPriv ed25519.Priv
 		}
 		counter := uint32(i)
 		signer := skSigner{pub: pub, sign: func(data []byte) sr.Sig { return j.k.skSign(byte(j.flags), counter, data) }}
-		ok, serr, cerr, timedOut := handshake(hostSigner, cb, signer)
+		ok, serr, cerr, timedOut := handshake(hostSigner, cb, vcb, signer)
 		c.Eval(1)
 		det := map[string]any{"key": j.k.name, "config": j.cfg.name, "flags": j.flags, "server_err": fmt.Sprint(serr), "client_err": fmt.Sprint(cerr)}
 		if timedOut {
@@ -815,6 +838,21 @@ func part4(c *vf.Ctx, keys []*keyEnt, hostSigner ssh.Signer, caPriv ed25519.Priv
 			c.Capped("a handshake did not finish within the hang-protection timeout (case skipped)")
 			c.Outcome("handshake timed out (skipped)")
 			return
+		}
+		// hardening: whatever opt-out the server applied for ITS verification, the key object it
+		// handed to the callback still requires user presence (the opt-out lives on a clone)
+		if !timedOut && j.flags%16 == 0 {
+			d2 := c.Bytes("data4c", i, 12)
+			noUP, withUP := j.k.skSign(byte(j.flags)&^1, 3, d2), j.k.skSign(byte(j.flags)|1, 3, d2)
+			for _, seen := range seenByCallback {
+				if err := seen.Verify(d2, toSSH(noUP)); err == nil {
+					c.Violation("a key object handed to the server's callbacks accepts an sk signature without user presence after the handshake (the opt-out leaked onto the shared object)", det)
+				}
+				if err := seen.Verify(d2, toSSH(withUP)); err != nil {
+					c.Violation("a key object handed to the server's callbacks rejects a valid sk signature after the handshake", det)
+				}
+				c.Eval(2)
+			}
 		}
 		want := j.flags&1 == 1 || j.cfg.waived
 		switch {
